@@ -648,7 +648,8 @@ def explore(ctx, res, full=False, budget=400):
             res.extra["preempt_exhaustive"] = (
                 "every schedule with at most two pre-emptions (A a points, B b points, A to the end, B to the end; and B first) and every "
                 "three-pre-emption schedule in which B's call straddles two program items of A, at the granularity of every bytecode of "
-                "memoize_when_activated's closures, Process.oneshot and oneshot_enter/exit, for the programs: %s; "
+                "memoize_when_activated's closures, Process.oneshot and oneshot_enter/exit that is not frame-local (FRAME_LOCAL_OPS), "
+                "for the programs: %s; "
                 "all three-pre-emption schedules + a sample of the others for: %s" % (", ".join(exh) or "-", ", ".join(sampled) or "-"))
     finally:
         sys.setswitchinterval(old)
